@@ -134,6 +134,23 @@ def write_events(bs, acc, ctx, d):
                     acc.violation('readback', 'value', dict(cls=cls, bits=d if L < 70 else f'{L} bits', route='file-whole'), '\n'.join(pre + ["# tofile then Bits(filename=) differs", "assert False"]), 'padded content', str(back)[:80])
         if s.bin != d:
             acc.violation('tobytes', 'frame', dict(cls=cls), "# serialising changed the object\nassert False", None, None)
+    # the same serialisers on objects that are views of a longer source (file-backed with a length limit, offset windows, slices)
+    if L <= 40 and (L % 3 == 0 or L < 10):
+        for r in ('file_len', 'file_handle_len', 'file_off3_len', 'bytes_off3', 'bytesio', 'slice', 'stepslice', 'from_mutated'):
+            cls = CLASSES[(L + len(r)) % 4]
+            try:
+                s = R.build(bs, r, cls, d, ctx)
+            except Exception:  # noqa: BLE001 - construction is C08/C15 business
+                continue
+            if s is None:
+                continue
+            f = io.BytesIO()
+            for op, th, src in (('tobytes', lambda: s.tobytes(), "s.tobytes()"), ('bytes()', lambda: bytes(s), "bytes(s)"), ('tofile', lambda: (s.tofile(f), f.getvalue())[1], "TOFILE(s)")):
+                got = obs(th)
+                acc.step(op, 1, nontrivial=1, ok=1)
+                if got != ('ok', exp):
+                    acc.violation(op, 'value', dict(cls=cls, bits=d, route=r, group=f'route-{r}'),
+                                  '\n'.join([R.SNIPPET_PRELUDE, "import io", "def TOFILE(s):", "    f = io.BytesIO(); s.tofile(f); return f.getvalue()", f"s = {R.source(r, cls, d)}", f"assert {src} == {exp!r}, {src}"]), exp.hex(), str(got)[:80])
     acc.outcome(('write', exp[:8], L % 8))
     if L == 11:
         acc.sample(dict(bits=d, events="tobytes(), bytes(s), s.bytes, tofile(BytesIO), tofile(file)"))
